@@ -19,6 +19,7 @@ import traceback
 from typing import Any, Callable, Dict, Optional
 
 from . import xh_patches
+from .paths import REPO as _REPO
 
 xh_patches.apply()
 
@@ -59,8 +60,8 @@ class _CallRecorder(TracingModule):
         code = getattr(fn, "__code__", None)
         if code is not None:
             f = code.co_filename
-            if f.startswith("/repo/semantiva/"):
-                key = f[len("/repo/"):] + ":" + getattr(fn, "__qualname__", code.co_name)
+            if f.startswith(_REPO + "/semantiva/"):
+                key = f[len(_REPO) + 1:] + ":" + getattr(fn, "__qualname__", code.co_name)
                 self.seen[key] = self.seen.get(key, 0) + 1
         return None
 
